@@ -31,6 +31,7 @@ fn table(id: &str) -> Option<(RunFn, CheckFn)> {
         "C07" => Some((props::c07::run, props::c07::check_case)),
         "C08" => Some((props::c08::run, props::c08::check_case)),
         "C11" => Some((props::c11::run, props::c11::check_case)),
+        "C12" => Some((props::c12::run, props::c12::check_case)),
         "C15" => Some((props::c15::run, props::c15::check_case)),
         "C17" => Some((props::c17::run, props::c17::check_case)),
         "C18" => Some((props::c18::run, props::c18::check_case)),
@@ -69,6 +70,7 @@ fn main() {
             let num = |i: usize| a.get(i).and_then(|x| x.parse::<u64>().ok()).unwrap_or(0);
             let code = match a[0] {
                 "leftrec" => props::c11::leftrec_worker(num(1) as usize, num(2), num(3)),
+                "depth" => props::c12::depth_worker(a[1], a[2], a[3], num(4) as usize, num(5) == 1),
                 _ => 2,
             };
             std::process::exit(code);
